@@ -162,3 +162,44 @@ Definition tls_error_text (r : tls_load) (loader_err : string) : option string :
   | TlsPair _ _ => if String.eqb loader_err "" then None
                    else Some ("failed to load TLS cert and key PEMs: " ++ loader_err)
   end.
+
+(* ---- configtls: the CA pool (Config.loadCACertPool) ----------------------------------------------- *)
+Inductive ca_load := CaErrTwice | CaNone | CaFrom (s : tls_src).
+
+Definition load_ca (cafile capem : string) : ca_load :=
+  if nonempty cafile && nonempty capem then CaErrTwice
+  else if nonempty cafile then CaFrom (FromFile cafile)
+  else if nonempty capem then CaFrom (FromPem capem)
+  else CaNone.
+
+Definition load_ca_gen (cafile capem : string) : ca_load :=
+  let hf := nonempty cafile in
+  let hp := tls_hasCAPem (Z.of_nat (String.length capem)) in
+  if hf && hp then CaErrTwice
+  else if hf then CaFrom (FromFile cafile)
+  else if hp then CaFrom (FromPem capem)
+  else CaNone.
+
+(* the error text: fixed messages; [parse_ok] = x509's AppendCertsFromPEM accepted the bytes *)
+Definition ca_error_text (r : ca_load) (parse_ok : bool) : option string :=
+  match r with
+  | CaErrTwice => Some "failed to load CA CertPool: provide either a CA file or the PEM-encoded string, but not both"
+  | CaNone => None
+  | CaFrom (FromFile _) => if parse_ok then None else Some "failed to load CA CertPool File: failed to parse cert"
+  | CaFrom (FromPem _) => if parse_ok then None else Some "failed to load CA CertPool PEM: failed to parse cert"
+  end.
+
+(* ---- Validate() of the configuration structs that hold opaque values ----------------------------------
+   configgrpc.ClientConfig.Validate (balancer name known?), confighttp.ClientConfig.Validate (compression
+   parameters), configtls.Config.Validate (CA given twice? TLS versions): decisions over the NON-opaque
+   settings; the headers map / the PEMs are parameters here only to say that the result ignores them.
+   (Not translatable by T1: string-field selectors / multi-value assignments.) *)
+Definition grpc_client_validate (balancer_name : string) (balancer_known : bool) (headers : hdrs) : option string :=
+  if nonempty balancer_name && negb balancer_known then Some ("invalid balancer_name: " ++ balancer_name) else None.
+
+Definition http_client_validate (compression_params_err : option string) (headers : hdrs) : option string :=
+  compression_params_err.
+
+Definition tls_validate (cafile capem certpem keypem : string) : option string :=
+  if nonempty cafile && nonempty capem
+  then Some "provide either a CA file or the PEM-encoded string, but not both" else None.
